@@ -234,6 +234,18 @@ fn main() {
             println!("records={}", out.events);
             out.finish();
         }
+        // the peer name inside a response is random (34..65 bytes): repeat the fullest possible packets so that the
+        // longest names occur (P(name = 65 bytes) = 1/32 per response)
+        "worst" => {
+            let mut out = Out::create(a.get(1));
+            for i in 0..a.num(0) {
+                let rep = 24 + (i % 8);
+                let s = json!({"peer": if i % 2 == 0 { "ed" } else { "sha" }, "ttl": 60, "addrs": [{"c": "len", "len": 255, "i": 0, "rep": rep}]});
+                run_response(&mut out, &s, &w);
+            }
+            println!("records={}", out.events);
+            out.finish();
+        }
         "fuzz" => {
             let mut out = Out::create(a.get(2));
             fuzz(&mut out, a.num(0), a.num(1), &w);
